@@ -20,7 +20,12 @@ from sleap_nn.data.normalization import (
     convert_to_grayscale,
     convert_to_rgb,
 )
-from sleap_nn.data.providers import get_max_instances, get_max_height_width, process_lf
+from sleap_nn.data.providers import (
+    get_lf_instances,
+    get_max_instances,
+    get_max_height_width,
+    process_lf,
+)
 from sleap_nn.data.resizing import apply_pad_to_stride, apply_sizematcher, apply_resizer
 from sleap_nn.data.augmentation import (
     apply_geometric_augmentation,
@@ -97,12 +102,10 @@ class BaseDataset(Dataset):
         """Return list of indices of labelled frames."""
         lf_idx_list = []
         for lf_idx, lf in enumerate(self.labels):
-            # Filter to user instances
-            if self.data_config.user_instances_only:
-                if lf.user_instances is not None and len(lf.user_instances) > 0:
-                    lf.instances = lf.user_instances
+            # Filter to user instances (the labels are left unchanged)
+            lf_instances = get_lf_instances(lf, self.data_config.user_instances_only)
             is_empty = True
-            for _, inst in enumerate(lf.instances):
+            for _, inst in enumerate(lf_instances):
                 if not inst.is_empty:  # filter all NaN instances.
                     is_empty = False
             if not is_empty:
@@ -418,8 +421,9 @@ class CenteredInstanceDataset(BaseDataset):
 
             image = np.transpose(img, (2, 0, 1))  # HWC -> CHW
 
+            # the (filtered) instance list `_get_instance_idx_list` enumerated: `inst_idx` indexes it
             instances = []
-            for inst in lf:
+            for inst in get_lf_instances(lf, self.data_config.user_instances_only):
                 instances.append(inst.numpy())
             instances = np.stack(instances, axis=0)
 
@@ -500,11 +504,9 @@ class CenteredInstanceDataset(BaseDataset):
         """Return list of tuples with indices of labelled frames and instances."""
         instance_idx_list = []
         for lf_idx, lf in enumerate(self.labels):
-            # Filter to user instances
-            if self.data_config.user_instances_only:
-                if lf.user_instances is not None and len(lf.user_instances) > 0:
-                    lf.instances = lf.user_instances
-            for inst_idx, inst in enumerate(lf.instances):
+            # Filter to user instances (the labels are left unchanged)
+            lf_instances = get_lf_instances(lf, self.data_config.user_instances_only)
+            for inst_idx, inst in enumerate(lf_instances):
                 if not inst.is_empty:  # filter all NaN instances.
                     instance_idx_list.append((lf_idx, inst_idx))
         return instance_idx_list
